@@ -70,6 +70,8 @@ def explore_c20(rng, tier, res, deep=False):
                 kind = "strstep"
             if 44 <= i < 56:
                 kind = "rawtext"
+            if 56 <= i < 72:
+                kind = "blank"
             q = walk_query(rng, doc, g, filters=True) if rng.random() < 0.5 else g.query()
             FALSY = [{}, [], "", 0, False, None, 0.0, -0.0]
             if i < 2 * len(FALSY):
@@ -95,6 +97,12 @@ def explore_c20(rng, tier, res, deep=False):
                 pool = ["$['cafe\u0301']", "$['caf\u00e9']", "$.\u212b", "$.\u00c5", "$['\ufb01', 'fi']", "$['\u1100\u1161']", "$.l[?@ == 'e\u0301']", "$.l[?@ == '\u2126']", "$.\u03a3",
                         "$['\uff21']", "$['a\u00a0b']", "$.l[?@ != '\u00e9']"]
                 q = pool[(i - 44) % len(pool)]
+            if kind == "blank":
+                # the EMPTY query and queries of blank space only (inline with -q "", from an empty or blank file): invalid
+                # queries like any other — one diagnostic line, no traceback, non-zero exit; and '$' with blanks around it
+                blanks = ["", " ", "\n", " \t ", "\u00a0", "\r\n", " $", "$ "]
+                q = blanks[(i - 56) % len(blanks)]
+                doc = [{}, [1], "", 0][(i - 56) % 4]
             if kind == "spaced":
                 # blank space INSIDE string literals (runs of spaces, no-break and other Unicode spaces): the text of a
                 # query — also one read from a file — is taken as it is, only stripped at its ends
@@ -141,6 +149,8 @@ def explore_c20(rng, tier, res, deep=False):
             debug = rng.random() < 0.2
             pretty = rng.random() < 0.4
             use_rfile = rng.random() < (0.7 if kind == "spaced" else 0.3)
+            if 56 <= i < 72:
+                debug, use_rfile = False, i >= 64  # each blank query once inline, once from a file
             if 16 <= i < 56:
                 debug, use_rfile = False, i % 4 == 3  # the fixed control-character family: inline mostly, no --debug
             use_stdin = rng.random() < 0.3 and kind != "badbytes"
